@@ -598,6 +598,14 @@ class Gen(object):
         # real constants, self / selected as whole expressions
         out.append([Assign(V('f'), Bin(r.choice(['+', '*', '-']), {'t': 'real', 'v': r.choice(['3.25', '0.5', '10.0'])}, E())),
                     Ret({'t': 'real', 'v': '2.75'})])
+        # literal spellings are kept as written
+        R = lambda *vs: {'t': 'real', 'v': r.choice(vs)}
+        out.append([Assign(V('f'), R('1.50', '2.00', '007.5', '10.10')),
+                    Assign(V('g'), Bin(r.choice(['+', '*']), R('.5', '1.', '1e3', '1.e5'), R('3.25f', '2.0L', '1e3F', '.5l'))),
+                    Ret(Bin('*', Un('-', R('0.00001', '0.250')), R('12345678901234567890.5')))])
+        out.append([Assign(V('i'), I(r.choice(['007', '00', '0']))), Assign(V('j'), Bin('-', I('12345678901234567890'), I('0010'))),
+                    Assign(V('s'), Bin('+', Str(r.choice(['a // b', 'x//'])), Str(r.choice(['/* c */', '/*', '*/'])))),
+                    Ret(Bin('+', Str(''), Str(r.choice(["it's 'x'", ' lead and trail ', 'end if;', '1.5']))))])
         out.append([Assign(V('me'), {'t': 'self'}),
                     {'t': 'select_from', 'card': r.choice(['any', 'many']), 'v': 's', 'k': r.choice(['A', kwid()]), 'haswhere': True,
                      'w': Bin('==', {'t': 'selected'}, {'t': 'self'})},
